@@ -346,6 +346,7 @@ pub fn file_case(ext: &str, bytes: &[u8], df: u8, emit: &mut dyn FnMut(String)) 
     let s = step_all(&mut t, &chars);
     let font = catch(std::panic::AssertUnwindSafe(|| t.buf.get_font_dimensions())).unwrap_or(icy_engine::Size::new(8, 16));
     let replica_answer = run_answer(&t, &s);
+    let queued = t.buf.sixel_threads.len();
     drop(t); // the replica may hold tens of thousands of rows: free them before the loader allocates its own
     // ---- the real thing
     let real = catch(std::panic::AssertUnwindSafe(|| Buffer::from_bytes(&PathBuf::from(format!("f.{}", ext)), false, bytes)));
@@ -362,6 +363,15 @@ pub fn file_case(ext: &str, bytes: &[u8], df: u8, emit: &mut dyn FnMut(String)) 
             format!("panic:{}", panic_site(loc))
         }
     };
+    if queued > 0 {
+        // distribution of the sixel join: decodes queued at the end of the text -> image layers in the loaded buffer
+        let kept = match &real {
+            Ok(Ok(b)) => (b.layers.len() - 1).to_string(),
+            Ok(Err(_)) => "err".to_string(),
+            Err(_) => "panic".to_string(),
+        };
+        emit(format!("R sixel-join:queued={},layers={}", queued.min(9), kept));
+    }
     let skip_model = has_big_sixel_number(data);
     if !skip_model {
         emit(format!("M textload fb {} {} {} {} {} {}", ext, df, font.width, font.height, hexr(bytes), if s.orc.is_empty() { "-".to_string() } else { s.orc.join(",") }));
@@ -516,7 +526,7 @@ fn file_stream(rng: &mut Rng, kind: &str, w: i32, h: i32, ntok: usize, far: bool
     }
 }
 
-fn sauce_record(w: u16, h: u16, ice: bool) -> Vec<u8> {
+pub fn sauce_record(w: u16, h: u16, ice: bool) -> Vec<u8> {
     let mut t = vec![0u8; 128];
     t[0..5].copy_from_slice(b"SAUCE");
     t[5] = b'0';
@@ -531,6 +541,100 @@ fn sauce_record(w: u16, h: u16, ice: bool) -> Vec<u8> {
     t[98..100].copy_from_slice(&h.to_le_bytes());
     t[105] = ice as u8;
     t
+}
+
+
+// ------------------------------------------------------------------------------------------------ sixel cover relations
+// `parse_with_parser` ends every text-format load with `Buffer::update_sixel_threads`, whose shadow-removal loop indexes
+// `layers[0].sixels` while removing from it (`Model/SixelShadow.lean`).  The loop is only exercised by files with SEVERAL
+// sixel images whose pixel rectangles cover one another; this family builds them systematically.
+
+/// one sixel image at cell (`row`, `col`) (1-based), `width` pixels wide, `bands` sixel rows high, all pixels set
+pub fn sixel_at(row: i32, col: i32, width: i32, bands: i32) -> String {
+    let band = format!("!{}~", width);
+    format!("\x1b[{};{}H\x1bPq#0;2;100;0;0#0{}\x1b\\", row, col, vec![band; bands.max(1) as usize].join("-"))
+}
+
+/// earlier image number `j` (cell column 1 + 2j, i.e. pixel column 16j with the 8 pixel font): `covered` = inside the final
+/// cover rectangle, else outside it in the way `how` says
+fn earlier_image(j: i32, covered: bool, small: bool, how: u8, cover_w: i32) -> String {
+    match (covered, small, how) {
+        (true, true, _) => sixel_at(1, 1 + 2 * j, 6, 1),              // strictly inside
+        (true, false, _) if j == 0 => sixel_at(1, 1, cover_w, 1),     // identical rectangle
+        (true, false, _) => sixel_at(1, 1 + 2 * j, cover_w - 16 * j, 1), // same right edge (touching the border)
+        (false, _, 0) => sixel_at(10 + j, 1, 7, 1),                   // unrelated: elsewhere on the screen
+        (false, _, 1) => sixel_at(1, 1 + 2 * j, cover_w + 50, 1),     // partial: starts inside, sticks out to the right
+        (false, _, _) => sixel_at(1, 1 + 2 * j, 6, 3),                // partial: starts inside, sticks out below
+    }
+}
+
+/// the files: `n` = 0..=5 images; the LAST one is the cover, each of the n-1 earlier ones is covered or not (every subset, so
+/// the removed indices are every pattern: none, first, last, adjacent, alternating, all), in 2 x 3 shapes; plus chains where
+/// an earlier cover is itself covered later, repeated identical images, and a clear-screen between images
+pub fn sixel_cover_texts(rng: &mut Rng, full: bool) -> Vec<(String, String)> {
+    let mut v: Vec<(String, String)> = vec![("n0".into(), "no sixel at all\r\n".into())];
+    for n in 1..=5i32 {
+        let cover_w = 16 * (n - 2).max(0) + 6;
+        for mask in 0..(1u32 << (n - 1)) {
+            for small in [true, false] {
+                for how in 0..3u8 {
+                    if mask == (1u32 << (n - 1)) - 1 && how > 0 {
+                        continue; // nothing uncovered: `how` is unused
+                    }
+                    if mask == 0 && !small {
+                        continue; // nothing covered: `small` is unused
+                    }
+                    let mut t = String::new();
+                    for j in 0..(n - 1) {
+                        t.push_str(&earlier_image(j, mask >> j & 1 == 1, small, how, cover_w));
+                        if j % 2 == 1 {
+                            t.push_str("x\r\n");
+                        }
+                    }
+                    t.push_str(&sixel_at(1, 1, cover_w, 1));
+                    v.push((format!("n{}.m{:b}.{}{}", n, mask, if small { 's' } else { 'e' }, how), t));
+                }
+            }
+        }
+    }
+    // chains and repeats
+    let alphabet: Vec<String> = vec![
+        sixel_at(1, 1, 6, 1), sixel_at(1, 3, 6, 1), sixel_at(1, 5, 6, 1), sixel_at(1, 7, 6, 1),
+        sixel_at(1, 1, 22, 1), sixel_at(1, 1, 38, 1), sixel_at(1, 1, 54, 1), sixel_at(1, 1, 200, 40),
+        sixel_at(1, 3, 22, 1), sixel_at(10, 1, 7, 1), sixel_at(11, 1, 7, 1), sixel_at(10, 1, 7, 2),
+        "\x1b[2J".to_string(), "\x0c".to_string(), "text\r\n".to_string(),
+        "\x1bPq\x1b\\".to_string(),        // an empty picture (dropped by the decoder or 0 x 0)
+        "\x1bPq#0!5~#9999~\x1b\\".to_string(),
+    ];
+    for k in 0..(if full { 400 } else { 40 }) {
+        let n = rng.range(0, 5) as usize + usize::from(k % 3 == 0);
+        let mut t = String::new();
+        for _ in 0..n {
+            let tok: &String = rng.pick(&alphabet[..]);
+            t.push_str(tok);
+        }
+        v.push((format!("chain{}", n), t));
+    }
+    v
+}
+
+pub fn sixel_cover_cases(rng: &mut Rng, thorough: bool) -> Vec<String> {
+    let mut cs = Vec::new();
+    let texts = sixel_cover_texts(rng, thorough);
+    for (ei, ext) in TEXT_EXT.iter().enumerate() {
+        for (ti, (label, t)) in texts.iter().enumerate() {
+            // quick: everything under `.ans`; under the other extensions the two shapes of the stale-index class (all covered;
+            // two covered + an unrelated one behind them) and a rotating 1/12 sample of the rest
+            let must = label == "n3.m11.s0" || label == "n4.m11.s0" || label == "n4.m101.s0" || label == "n0";
+            if !(thorough || ei == 0 || must || (ti + ei) % 12 == 0) {
+                continue;
+            }
+            let bytes: Vec<u8> = t.chars().map(|c| c as u32 as u8).collect();
+            let ext = if (ti + ei) % 17 == 5 { ext.to_ascii_uppercase() } else { ext.to_string() };
+            cs.push(format!("{}:{}", ext, hexr(&bytes)));
+        }
+    }
+    cs
 }
 
 pub fn gen_cases(seed: u64, thorough: bool) -> Vec<String> {
@@ -657,5 +761,7 @@ pub fn gen_cases(seed: u64, thorough: bool) -> Vec<String> {
     ] {
         cs.push(format!("{}:{}", ext, hexr(&s.chars().map(|c| c as u32 as u8).collect::<Vec<u8>>())));
     }
+    // several sixel images in every cover relation (the shadow-removal loop of `update_sixel_threads`)
+    cs.extend(sixel_cover_cases(&mut rng, thorough));
     cs
 }
